@@ -21,6 +21,7 @@ func init() {
 					Type: "character",
 					Text: "The character to return the weight of.",
 				},
+				{Name: "&optional"},
 				{
 					Name: "radix",
 					Type: "integer",
